@@ -132,6 +132,12 @@ pub fn jobs(ctx: &Ctx) -> Vec<RJob> {
             let x = coord(&mut rng);
             let y = coord(&mut rng);
             spec.image_position = Some((x, y));
+            // positions are module coordinates whatever their magnitude: one request in twelve lies inside the unit
+            // square (0,1) x (0,1) (values that could be mistaken for fractions), or has exactly 1.0 / tiny values
+            if rng.chance(1, 12) {
+                let small = |rng: &mut Rng| [0.5, 0.25, 0.75, 0.01, 0.99, 1.0, 0.1, 1e-9][rng.below(8)];
+                spec.image_position = Some((small(&mut rng), small(&mut rng)));
+            }
         }
         out.push(RJob { job, spec });
     }
@@ -410,7 +416,7 @@ pub fn run(ctx: &Ctx) -> Report {
     st.count("version_to_version_width_comparisons", mono);
     let mut rep = Report::new(
         st,
-        "jobs = all 40 versions x 3 frame shapes x margins 0..=16 with default placement (2040 cases, enumerated completely) + sampled real-valued overrides (size in [1, size/2] plus {0.5, 1, 2, size}, gap in [0, 6] incl. exactly 0 and tiny gaps, position anywhere in [0, S] incl. 0, S, margin, S/2; integers, halves, 2-decimals and arbitrary reals; all 7 non-empty subsets of {size, gap, position}); the frame <rect> and <image> are read from the parsed XML tree and the statement is checked directly: centred, integer edges, side < 40% and clear of the three finder squares, non-decreasing in the version, image square/centred/not larger (defaults); requested size (2 decimals), frame-image in [2gap-1, 2gap], frame centred on the requested position (overrides); + the raster route: 160 (thorough 4,000) option sets on a half-module grid given to ImageBuilder (Square frame in an opaque colour no module has, fully transparent embedded image, 8 px per module): the frame's pixel bounding box must coincide within one pixel with the frame element of the SVG document for the same options, and be solid; distinct key = (qr options, spec); every case non-trivial",
+        "jobs = all 40 versions x 3 frame shapes x margins 0..=16 with default placement (2040 cases, enumerated completely) + sampled real-valued overrides (size in [1, size/2] plus {0.5, 1, 2, size}, gap in [0, 6] incl. exactly 0 and tiny gaps, position anywhere in [0, S] incl. 0, S, margin, S/2 and positions inside the unit square; integers, halves, 2-decimals and arbitrary reals; all 7 non-empty subsets of {size, gap, position}); the frame <rect> and <image> are read from the parsed XML tree and the statement is checked directly: centred, integer edges, side < 40% and clear of the three finder squares, non-decreasing in the version, image square/centred/not larger (defaults); requested size (2 decimals), frame-image in [2gap-1, 2gap], frame centred on the requested position (overrides); + the raster route: 160 (thorough 4,000) option sets on a half-module grid given to ImageBuilder (Square frame in an opaque colour no module has, fully transparent embedded image, 8 px per module): the frame's pixel bounding box must coincide within one pixel with the frame element of the SVG document for the same options, and be solid; distinct key = (qr options, spec); every case non-trivial",
     );
     rep.exhaustive = Some(true);
     rep.expected_sets = vec![("default_cells", 2040), ("override_shapes", 7), ("raster_override_shapes", 8)];
